@@ -173,6 +173,8 @@ R.contract(
 
 EDIT_SHAPE = ("is_dict(%(x)s) and len(as_dict(%(x)s)) == 2 and 'op' in as_dict(%(x)s) and as_dict(%(x)s)['op'] == 'upsert_node' "
               "and 'id' in as_dict(%(x)s) and is_str(as_dict(%(x)s)['id'])")
+SEL_SHAPE = ("forall(j, 0 <= j < len(selected), is_dict(selected[j]) and len(as_dict(selected[j])) == 1 and "
+             "'id' in as_dict(selected[j]) and is_str(as_dict(selected[j])['id']))")
 R.contract(
     POL + "_edit_nodes_from_bundle", "C13",
     types={"bundle": "Dyn", "eps_edit": "float", "cap_nodes": "int"},
@@ -184,9 +186,12 @@ R.contract(
                          "as_str(as_dict(result[i])['id']) <= as_str(as_dict(result[j])['id']))"),
     ],
     raises=["Exception"],
-    loops={0: {"inv": ["forall(j, 0 <= j < len(selected), is_dict(selected[j]) and len(as_dict(selected[j])) == 1 and "
-                       "'id' in as_dict(selected[j]) and is_str(as_dict(selected[j])['id']))"]}},
+    loops={0: {"inv": [SEL_SHAPE]}},
     locals={"selected": "List[Dyn]"},
+    asserts={"selected": [SEL_SHAPE,
+                          "forall2(i, j, 0 <= i and i < j and j < len(selected), "
+                          "as_str(as_dict(selected[i])['id']) <= as_str(as_dict(selected[j])['id']))"]},
+    feas_timeout_ms=100,
 )
 
 S_MAX, T_HI, T_LO = "b_s_max(bundle)", "b_tau_high(bundle)", "b_tau_low(bundle)"
@@ -228,4 +233,5 @@ R.contract(
     ensures=DELIBERATE_ENSURES,
     raises=["Exception"],
     locals={"ops": "List[Op]"},
+    feas_fresh=True, feas_timeout_ms=100,
 )
